@@ -59,6 +59,7 @@ type Program struct {
 	modsets    map[*ssa.Function]map[*types.Var]bool
 	astFuncs   map[*types.Func]*ast.FuncDecl
 	sentinels  map[*ssa.Global]bool
+	tracked    map[*ssa.Function]map[*ssa.Phi]bool
 
 	// Normalized lists the calls to new helpers that were expanded in place
 	// before analysis (inline.go); Source is the overlay actually analysed.
